@@ -1,5 +1,24 @@
-
 import hashlib
+from collections.abc import Mapping, Set
+
+def _stable_repr(obj):
+    '''
+    A textual rendering of (nested) states, actions, options and seeds that,
+    where possible, does not depend on the interpreter's hash randomisation.
+    '''
+    if isinstance(obj, (str, bytes, int, float, complex, type(None))):
+        return repr(obj)
+    if isinstance(obj, (tuple, list)):
+        return '(' + ','.join(_stable_repr(o) for o in obj) + ')'
+    if isinstance(obj, Set):
+        return '{' + ','.join(sorted(_stable_repr(o) for o in obj)) + '}'
+    if isinstance(obj, Mapping):
+        return '{' + ','.join(sorted(
+            _stable_repr(k) + ':' + _stable_repr(v) for k, v in obj.items()
+        )) + '}'
+    if isinstance(getattr(obj, 'name', None), str): #e.g., options
+        return obj.__class__.__name__ + ':' + obj.name
+    return 'hash:' + str(hash(obj))
 
 def obj_seed(obj):
-    return int(hashlib.sha1(hash(obj).to_bytes(8, 'big', signed=True)).hexdigest(), 16)
+    return int(hashlib.sha1(_stable_repr(obj).encode('utf-8')).hexdigest(), 16)
